@@ -361,6 +361,24 @@ func genHttpConv(r *Rand, tier string, emit func(sx.Sx)) {
 			emit(sx.L(sx.L(sx.A("ex"), req, resp)))
 		}
 	}
+	// GraphQL over HTTP: a JSON body whose "query" member parses as a GraphQL document makes the entry a
+	// GraphQL entry (protocol gql, macro `gql`); one that does not parse, or another content type, does not
+	for _, g := range []struct{ ct, body string }{
+		{"application/json", `{"query":"{ hero { name friends { name } } }"}`},
+		{"application/json", `{"query":"query Q($id: ID!) { user(id: $id) { name } }","variables":{"id":"7"}}`},
+		{"application/json", `{"query":"mutation { like(id: 3) { count } }"}`},
+		{"application/json", `{"query":"this is (((not graphql"}`},
+		{"application/json", `{"query":42}`},
+		{"application/json", `{"nothing":"here"}`},
+		{"application/json", `not json at all`},
+		{"text/plain", `{"query":"{ hero { name } }"}`},
+		{"application/json; charset=utf-8", `{"query":"{ hero { name } }"}`},
+	} {
+		hs := sx.L(sx.L(sx.S("Host"), sx.S("host.example")), sx.L(sx.S("Content-Type"), sx.S(g.ct)))
+		req := sx.L(sx.A("req"), sx.S("POST"), sx.S("/graphql"), sx.N(1), hs, sx.A("cl"), sx.B([]byte(g.body)))
+		resp := sx.L(sx.A("resp"), sx.N(200), sx.S("OK"), sx.N(1), sx.L(sx.L(sx.S("Content-Type"), sx.S("application/json"))), sx.A("cl"), sx.B([]byte(`{"data":{}}`)))
+		emit(sx.L(sx.L(sx.A("ex"), req, resp)))
+	}
 	for i := 0; i < count; i++ {
 		n := 1 + r.Intn(4)
 		var exs []sx.Sx
